@@ -116,7 +116,7 @@ def site_desc(scn):
                 r['disallow'] = ['/priv/']
             robots[h] = r
     return dict(hosts={h: IPS[h] for h in hs}, urls=urls, robots=robots, refuse=list(scn.get('refuse', ())),
-                nodns=list(scn.get('nodns', ())))
+                nodns=list(scn.get('nodns', ())), honour_range=bool(scn.get('honour_range')))
 
 
 def argv(scn, db, directory):
@@ -357,6 +357,11 @@ def c03_catalogue(quick):
     # --continue: the resumed run finds the documents the killed run left on disk and asks for the rest of them; the
     # site answers such Range requests with 200 and the whole document (RFC 7233 3.1: a server MAY ignore Range)
     out.append(scenario('crash-continue-N1', small, dict(cont=1), N=1))
+    # ... and a site that honours Range: 206 for what is missing, 416 when nothing is (RFC 7233 4.4: the document on
+    # disk is complete, but its links were never read - the kill came before they were stored)
+    hr = scenario('crash-continue-range-honoured-N1', small, dict(cont=1), N=1)
+    hr['honour_range'] = 1
+    out.append(hr)
     # a recursive FTP crawl: the entries of a directory listing are discovered URLs like the links of a page
     out.append(ftp_scenario('crash-ftp-tree-N1'))
     sm = sitemap_sites()
